@@ -425,6 +425,10 @@ FOREIGN = [
      "a=fmtp:96 minptime=10;useinbandfec=1;stereo=0\r\na=rtpmap:96 multiopus/48000/6\r\na=rtpmap:8 PCMA/8000\r\na=ice-ufrag:abcd\r\n"
      "a=ice-pwd:pwdpwdpwdpwdpwdpwdpwdpw\r\na=fingerprint:sha-256 AA:BB\r\na=setup:passive\r\na=sendonly\r\na=mid:a\r\n"
      "a=candidate:1 1 UDP 2122252543 ::1 5004 typ host generation 0\r\na=end-of-candidates\r\n"),
+    ("fingerprint without a=setup; static payload types with feedback next to dynamic ones",
+     "v=0\r\no=- 1 2 IN IP4 127.0.0.1\r\ns=-\r\nt=0 0\r\nm=audio 9 UDP/TLS/RTP/SAVPF 96 9 0 109\r\nc=IN IP4 0.0.0.0\r\na=ice-ufrag:abcd\r\n"
+     "a=ice-pwd:pwdpwdpwdpwdpwdpwdpwdpw\r\na=fingerprint:sha-256 AA:BB\r\na=mid:a\r\na=sendrecv\r\na=rtcp-mux\r\na=rtpmap:96 opus/48000/2\r\n"
+     "a=rtpmap:9 G722/8000\r\na=rtcp-fb:9 nack\r\na=rtpmap:0 PCMU/8000\r\na=rtcp-fb:0 transport-cc\r\na=rtpmap:109 telephone-event/8000\r\n"),
     ("legacy data channel section, plain LF line ends",
      "v=0\no=- 1 2 IN IP4 127.0.0.1\ns=-\nt=0 0\nm=application 9 DTLS/SCTP 5000\nc=IN IP4 0.0.0.0\na=ice-ufrag:abcd\n"
      "a=ice-pwd:pwdpwdpwdpwdpwdpwdpwdpw\na=fingerprint:sha-256 AA:BB\na=setup:actpass\na=mid:data\na=sctpmap:5000 webrtc-datachannel 1024\n"
@@ -543,10 +547,18 @@ def run(rep: Report, prog: Program, tier: str) -> None:
     rep.rule("C09-IDEM", "accepted foreign texts: one round is idempotent", min_instances=4)
     for label, text in FOREIGN:
         try:
-            t1 = hook.to_str(do_parse(text))
-            t2 = hook.to_str(do_parse(t1))
+            d1 = do_parse(text)
         except Raised as ex:
             raise AnalysisError(f"C09-IDEM corpus text [{label}] is no longer accepted ({ex.name}); the corpus must be refreshed")
+        except Unknown as ex:
+            raise AnalysisError(f"C09-IDEM cannot evaluate [{label}]: {ex}")
+        try:
+            t1 = hook.to_str(d1)
+            t2 = hook.to_str(do_parse(t1))
+        except Raised as ex:
+            rep.fail(mk_finding(prog, PROP, "C09-IDEM", parse, getattr(ex, "node", None), f"text [{label}] is accepted by the parser but serialising what was parsed (or parsing that again) raises {ex.name}",
+                                construct=f"accepted text cannot be serialised: {ex.name}"))
+            continue
         except Unknown as ex:
             raise AnalysisError(f"C09-IDEM cannot evaluate [{label}]: {ex}")
         if t1 == t2:
